@@ -250,6 +250,15 @@ func GenProgram(t *rapid.T, c GenCfg) Program {
 			start := rapid.IntRange(0, nk-1).Draw(t, "start")
 			if rapid.Bool().Draw(t, "reserved") {
 				start = reservedKeyBase // a key range that nothing else in the tree overlaps
+				// no old reader may hold the discard watermark back (compactions would keep everything)
+				p.Ops = append(p.Ops, Op{Kind: "discard", T: 0}, Op{Kind: "discard", T: 1}, Op{Kind: "discard", T: 2})
+				open = [4]int{}
+				// ... in a tree whose last level already holds enough data that L0 compacts into a
+				// level ABOVE it (and finds nothing below the reserved range there)
+				for j := 0; j < 2; j++ {
+					p.Ops = append(p.Ops, genFill(t, p.Spec, c, nk, rapid.IntRange(10, 20).Draw(t, "fill"), 600)...)
+					p.Ops = append(p.Ops, Op{Kind: "flush"}, Op{Kind: "compact", A: 0, B: 1}, Op{Kind: "compact", A: rapid.IntRange(1, 6).Draw(t, "lvl"), B: 1, T: 2})
+				}
 			}
 			cnt := rapid.IntRange(3, 8).Draw(t, "cnt")
 			vs := int(p.Spec.ValueThreshold) + rapid.IntRange(0, 200).Draw(t, "extra")
@@ -264,7 +273,7 @@ func GenProgram(t *rapid.T, c GenCfg) Program {
 			}
 			p.Ops = append(p.Ops, Op{Kind: "flush"}, Op{Kind: "compact", A: 0, B: 1})
 			var inside []Op
-			switch rapid.IntRange(0, 2).Draw(t, "racekind") {
+			switch rapid.SampledFrom([]int{0, 0, 1, 2}).Draw(t, "racekind") {
 			case 0: // delete moved keys, flush, push the tombstones down
 				inside = append(inside, Op{Kind: "begin", T: 3, RW: true, Ts: uint64(rapid.IntRange(1, 60).Draw(t, "rts"))})
 				for j := 1; j < cnt; j += 2 {
